@@ -37,7 +37,8 @@ class Gen:
             k = r.random()
             if k < 0.6:
                 a, p = r.choice(parents)
-                idx = r.randint(1, 3)
+                # mostly the first children; now and then a child index with two digits (the --trx syntax ADDR:PORT/IDX)
+                idx = r.randint(1, 3) if r.random() < 0.8 else r.choice([9, 10, 11, 12, 20, 21, 30, 33, r.randint(4, 45)])
             elif k < 0.9:
                 a, p = r.choice(["a", "b", "c"]), r.choice([7700, 8700, 5700, 6700])
                 idx = 0
@@ -229,7 +230,40 @@ class Gen:
             elif r.random() < 0.3:
                 clk = r.randrange(0, H)
                 ops.append("J %d" % clk)
+        if profile == "revisit":
+            # the same frame number is on air again and again (clock jumps back, as after a restart of the generator), with
+            # one transceiver retuned / re-versioned / power-cycled in between: whatever was derived for that frame before
+            # must not be used again
+            fn0 = clk if clk is not None else 0
+            fns = [fn0, (fn0 + 1) % H]
+            for _ in range(max(2, n_ops // 6)):
+                fn = r.choice(fns)
+                ops.append("J %d" % fn)
+                for _ in range(r.choice([1, 1, 2])):
+                    i = r.randrange(nt)
+                    ops.append("D %d %s" % (i, hx(self.tx_dgram(fn, ver[i], 0.0))))
+                ops.append("T")
+                j = r.randrange(nt)
+                k = r.random()
+                if k < 0.45:
+                    f = r.choice([945000, 900000, 935200, 890200, 945200])
+                    C(j, "CMD %s %d\0" % (r.choice(["RXTUNE", "RXTUNE", "TXTUNE"]), f))
+                elif k < 0.6:
+                    rx, tx = r.choice([(945000, 900000), (900000, 945000), (935200, 890200)])
+                    n = r.choice([1, 2, 3])
+                    C(j, "CMD SETFH %d %d %s\0" % (r.choice([0, 1, 7]), r.randint(0, 2),
+                      " ".join("%d %d" % (rx + 200 * q, tx + 200 * q) for q in range(n))))
+                elif k < 0.75:
+                    C(j, "CMD POWEROFF\0")
+                    if r.random() < 0.7:
+                        C(j, "CMD POWERON\0")
+                elif k < 0.85:
+                    v = r.choice([0, 1])
+                    C(j, "CMD SETFORMAT %d\0" % v)
+                    ver[j] = v
+            n_ops = 0
         weights = {
+            "revisit": (0.30, 0.30, 0.36, 0.04),
             "mixed": (0.30, 0.30, 0.36, 0.04),
             "ctrl": (0.85, 0.05, 0.08, 0.02),
             "traffic": (0.10, 0.42, 0.45, 0.03),
